@@ -1934,6 +1934,22 @@ def _unstructured_query(name, boolean):
         MODELS[k] = f
 
 
+def _unstructured_arbitrary(ctx):
+    """`u.arbitrary::<A>()` is `A::arbitrary(u)`"""
+    targs = ctx.fn.get('args') or []
+    a_ty = targs[-1] if targs else None
+    if a_ty is None or a_ty.get('k') == 'lifetime':
+        return NotImplemented
+    sub = CallCtx(ctx.interp, ctx.frame, ctx.state, ctx.term, ctx.args, dict(ctx.fn, args=[a_ty]), None)
+    r = MODELS['arbitrary::Arbitrary::arbitrary'](sub)
+    ctx.state = sub.state
+    return r
+
+
+for _k in ("<arbitrary::Unstructured<'a>>::arbitrary", '<arbitrary::Unstructured>::arbitrary'):
+    MODELS[_k] = _unstructured_arbitrary
+
+
 # pure queries on the byte source: uninterpreted functions of its current state
 _unstructured_query('is_empty', True)
 _unstructured_query('len', False)
@@ -3430,6 +3446,26 @@ def _(ctx):
     if not isinstance(p_, Ref):
         raise Unsupported('Option::copied of a non-reference payload')
     return opt(g, it.read(ctx.state, p_.root, p_.path))
+
+
+@model('<[T]>::copy_from_slice', '<[T]>::clone_from_slice')
+def _(ctx):
+    """dst[i] = src[i] for all i; panics unless the lengths are equal"""
+    it = ctx.interp
+    d = deref_seq(ctx, ctx.args[0])
+    s_ = deref_seq(ctx, ctx.args[1])
+    nd, ns = slice_len(it, d), slice_len(it, s_)
+    require(ctx, 'assert:copy-len', mk_icmp('eq', nd, ns), {'what': 'copy_from_slice', 'dst': nd, 'src': ns})
+    if not (nd[0] == 'ic' and isinstance(d, SliceRef) and isinstance(s_, SliceRef) and d.start[0] == 'ic' and s_.start[0] == 'ic'):
+        raise Unsupported('copy_from_slice of a symbolic length')
+    vals = []
+    for j in range(nd[1]):
+        r_ = elem_ref(it, s_, iconst(s_.start[1] + j))
+        vals.append(it.read(ctx.state, r_.root, r_.path))
+    for j, v_ in enumerate(vals):
+        w_ = elem_ref(it, d, iconst(d.start[1] + j))
+        it.write(ctx.state, w_.root, w_.path, v_)
+    return Tup(())
 
 
 @model('<usize>::div_ceil')
